@@ -18,6 +18,32 @@ CLAIMED = {
         note="Trusted: TLC, the transcription of Python list semantics in TraitList.tla (cross-checked on every case "
              "against the builtin list), the concretisation of abstract items (small ints / digit strings).",
         design="4/C05"),
+    "C01": dict(
+        technique=TLA + "Validate.tla holds three independent definitions per trait type - the compiled validators "
+                  "(Fast), the Python validate methods (Py) and the declared domain (InDomain); TLC checks Store(w) => "
+                  "InDomain for every (configuration, value); every pair is instantiated as a real trait and value, "
+                  "assigned by four routes, and judged by TLC (outcome, stored value and exact type, members, shadow value, "
+                  "frame condition, error naming the attribute)",
+        text="Exhaustive over ~900 trait configurations (Int..CBool and Base* twins, float/int Range with all bound/"
+             "exclusivity combinations, Enum, Map, PrefixMap/PrefixList, String minlen/maxlen/regex, Tuple/ValidatedTuple, "
+             "Instance/Type incl. lazily resolved class names, Callable, Either/Union incl. nested and Python-only "
+             "alternatives) x 60 value classes (bool/int/float subclasses, numpy scalars, __index__/__float__/"
+             "__complex__ objects incl. raising ones, NaN/inf/-0.0, huge ints, None, text, tuples, lists, classes, "
+             "instances) x 4 assignment routes.",
+        note="Trusted: TLC; one concrete representative per value class; Array, Date/Time/UUID, File/Directory, "
+             "List/Dict/Set element validation (C04) are outside this check.",
+        design="4/C01"),
+    "C03": dict(
+        technique=TLA + "the transcriptions Fast and Py of Validate.tla are compared by TLC for every (configuration, "
+                  "value) (accept sets, results, Python TraitError => fast TraitError, first accepting alternative); "
+                  "both are bound to the code: CTrait.validate (compiled path) and handler.validate (Python path) are "
+                  "called on the real trait for every pair and judged by TLC",
+        text="Same enumeration as C01; three-way agreement spec-Fast = C path, spec-Py = Python path, Fast ~ Py, for "
+             "all fast-validating trait types and compound nestings (Either with nested Either, Python-only "
+             "alternatives, Tuple members, lazily resolved Instance inside a compound).",
+        note="Trusted: TLC; legacy Trait()/TraitCoerceType handlers are not enumerated; a Python method raising a "
+             "non-TraitError exception where the fast path raises TraitError counts as agreement (both reject).",
+        design="4/C03"),
     "C02": dict(
         technique=TLA + "Notify.tla models the C pre-filter and each mechanism's own filter as the code is structured; "
                   "TLC checks the property (exactly once per change, truthful old/new, same sequence, silence on "
